@@ -20,7 +20,8 @@
 (* results the property allows.  Refusal rule: an allocation may always be refused *)
 (* (AllocErr) - but a success beyond the stated capacity, overlapping a live       *)
 (* block, outside the pool's region, too short or misaligned is never accepted.    *)
-EXTENDS Naturals, Integers, Sequences, FiniteSets, FiniteSetsExt, Opt
+EXTENDS Naturals, Integers, Sequences, FiniteSets, Opt
+LOCAL INSTANCE FiniteSetsExt   \* FoldSet
 
 VARIABLES live, pend
 
